@@ -184,19 +184,19 @@ class VersionMonitor(Ext):
                 continue
             fid = dec[0] if isinstance(dec, tuple) else dec
             if not (0 <= fid < len(self.table)):
-                raise Violation('C17', 'unknown_method_id', 'committed entry %d carries method id %r, the program defines %d ids' % (pos, fid, len(self.table)))
+                self.mon.flag('C17', 'unknown_method_id', 'committed entry %d carries method id %r, the program defines %d ids' % (pos, fid, len(self.table)))
             o, n, v = self.table[fid]
             enabled = mon.version_at(pos)
             mon.obs['version_checks'] += 1
             if enabled is not None and v > enabled:
-                raise Violation('C17', 'version_above_enabled', 'entry %d executes %s.%s version %d while version %d is enabled at that position'
+                self.mon.flag('C17', 'version_above_enabled', 'entry %d executes %s.%s version %d while version %d is enabled at that position'
                                 % (pos, o, n, v, enabled))
             subs = mon.cmd2sub.get(cmd)
             if subs and not subs[0].get('ambiguous') and subs[0].get('enabled_at_submit') is not None:
                 sub = subs[0]
                 exp = self.available(sub['code'], o, n, sub['enabled_at_submit'])
                 if exp is not None and exp != v:
-                    raise Violation('C17', 'not_newest_enabled_version',
+                    self.mon.flag('C17', 'not_newest_enabled_version',
                                     'call of %s.%s submitted on %s (code %s, enabled version %d) was turned into version %d, newest enabled is %d'
                                     % (o, n, sub['key'], sub['code'], sub['enabled_at_submit'], v, exp))
                 if v > 0:
@@ -209,7 +209,7 @@ class VersionMonitor(Ext):
         if ev is not None:
             mon.obs['code_version_checks'] += 1
             if p.obj.getCodeVersion() != ev:
-                raise Violation('C17', 'enabled_version_wrong', '%r (code %s) reports enabled version %d at applied index %d, the log defines %d'
+                self.mon.flag('C17', 'enabled_version_wrong', '%r (code %s) reports enabled version %d at applied index %d, the log defines %d'
                                 % (p, p.code, p.obj.getCodeVersion(), a, ev), after_load=any(e[0] == 'load' for e in p.events))
         # a node that lacks the enabled version must stop right before the VERSION entry
         maxv = max(v for (_, _, v) in self.prog[p.code])
@@ -220,7 +220,7 @@ class VersionMonitor(Ext):
                 break
             if True:
                 if want > maxv and a > max(pos - 1, loaded):
-                    raise Violation('C17', 'applied_past_unsupported_version',
+                    self.mon.flag('C17', 'applied_past_unsupported_version',
                                     '%r runs code with highest version %d but its applied index %d is past the VERSION(%d) entry at %d'
                                     % (p, maxv, a, want, pos))
 
@@ -352,10 +352,10 @@ class VerSim(Sim):
                 raised = True
             self.mon.obs['set_version_calls'] += 1
             if should_raise and not raised:
-                raise Violation('C17', 'bad_version_request_accepted', '%r (highest own version %d, enabled %d) accepted setCodeVersion(%d)'
+                self.mon.flag('C17', 'bad_version_request_accepted', '%r (highest own version %d, enabled %d) accepted setCodeVersion(%d)'
                                 % (p, maxv, enabled, want), above_own=(want > maxv))
             if raised and not should_raise:
-                raise Violation('C17', 'good_version_request_rejected', '%r (highest own version %d, enabled %d) rejected setCodeVersion(%d)'
+                self.mon.flag('C17', 'good_version_request_rejected', '%r (highest own version %d, enabled %d) rejected setCodeVersion(%d)'
                                 % (p, maxv, enabled, want))
             if not raised and want > enabled:
                 self.switched = True
